@@ -142,11 +142,15 @@ def r1(ctx: Ctx):
         ctx.ok(rule, fi, f'{fi.qualname}: {n_paths} paths, one disposition each', lp.ast)
   # a retried task has its recorded exception cleared
   for fi in (it, ac):
+    lists = {_work_list(fi)} | _retry_lists(fi)
+    g_ = cfgm.cfg_of(fi.node)
+    tvs = {lp.ast.target.id for lp in _task_loops(fi, g_)}
     for x in walk_no_nested(fi.node):
       if isinstance(x, ast.Call) and isinstance(x.func, ast.Attribute) and x.func.attr == 'append':
         txt = unparse(x.args[0]) if x.args else ''
         recv = unparse(x.func.value)
-        if recv in ('tasks', 'timeout_tasks') and 'task' in txt:
+        uses_task = x.args and any(isinstance(y, ast.Name) and y.id in tvs for y in ast.walk(x.args[0]))
+        if recv in lists and uses_task:
           setc = [c for c in ast.walk(x.args[0]) if isinstance(c, ast.Call)
                   and isinstance(c.func, ast.Attribute) and c.func.attr == 'set']
           extra = [k.arg for c in setc for k in c.keywords if k.arg != '_exc']
@@ -164,58 +168,84 @@ def r1(ctx: Ctx):
   ctx.floor(rule, 4)
 
 
+def _work_list(fi: FuncInfo) -> str | None:
+  """The list that receives tasks pulled from the task iterator."""
+  for x in walk_no_nested(fi.node):
+    if isinstance(x, ast.Call) and isinstance(x.func, ast.Attribute) and x.func.attr == 'append' and (
+        isinstance(x.func.value, ast.Name)) and x.args and any(
+            isinstance(y, ast.Call) and unparse(y.func) == 'next' and y.args
+            and 'task_iterator' in unparse(y.args[0]) for y in ast.walk(x.args[0])):
+      return x.func.value.id
+  return None
+
+
+def _retry_lists(fi: FuncInfo) -> set[str]:
+  out = set()
+  for x in walk_no_nested(fi.node):
+    if isinstance(x, ast.Call) and isinstance(x.func, ast.Attribute) and x.func.attr == 'append' and (
+        isinstance(x.func.value, ast.Name)) and x.args and '_exc=None' in unparse(x.args[0]):
+      out.add(x.func.value.id)
+  return out
+
+
 def r2(ctx: Ctx):
   rule = 'R-C06-2'
-  ctx.rule(rule, 'retry feeds the work list: timed-out tasks are extended into'
-           ' `tasks` before the next scheduling round, and a new task is pulled'
-           ' from the iterator only when `tasks` is empty')
+  ctx.rule(rule, 'retry feeds the work list: lists of timed-out tasks are'
+           ' extended into the work list before the next scheduling round, and'
+           ' a new task is pulled from the iterator only when the work list is'
+           ' empty')
   repo = ctx.repo
   it = _nested(repo.func(CW, 'WorkerPool.iterate'), 'iterate')
-  g = cfgm.cfg_of(it.node)
-  ext = [n for n in g.nodes if any(
-      isinstance(x, ast.Call) and unparse(x.func) == 'tasks.extend'
-      and x.args and 'timeout' in unparse(x.args[0]) for x in cfgm.node_exprs(n))]
-  loops = _task_loops(it, g)
-  heads = [c for c in g.nodes if c.kind == 'cond' and getattr(c, 'is_loop', False)]
-  ok = False
-  if ext and loops and heads:
-    lp = loops[0]
-    after = [s for s, lab in lp.succ if lab == 'false']
-
-    def edge_ok(a, b, lab):
-      if lab in ('exc', 'close', 'brk'):
-        return False
-      if a.kind == 'cond' and lab == 'false' and unparse(a.ast) == 'timeout_tasks':
-        return False
-      return True
-
-    ok = all(g.must_pass(s, heads, lambda n: n in ext, edge_ok) is None for s in after)
-  if ok:
-    ctx.ok(rule, it, 'tasks.extend(timeout_tasks) before the next round', ext[0].ast)
-  else:
-    ctx.fail(rule, it, 'WorkerPool.iterate: tasks.extend(timeout_tasks)',
-             'timed-out / orphaned tasks are not put back on the work list'
-             ' before the next scheduling round: their shards are never'
-             ' re-run', node=it.node)
   for fi in (it, repo.func(ORCH, 'as_completed')):
     g = cfgm.cfg_of(fi.node)
+    tasks = _work_list(fi)
+    if tasks is None:
+      raise AnalysisError(f'{rule}: {fi.qualname} never pulls from task_iterator into a work list')
+    retry = _retry_lists(fi) - {tasks}
+    loops = _task_loops(fi, g)
+    heads = [c for c in g.nodes if c.kind == 'cond' and getattr(c, 'is_loop', False)]
+    for rl in sorted(retry):
+      ext = [n for n in g.nodes if any(
+          isinstance(x, ast.Call) and isinstance(x.func, ast.Attribute) and x.func.attr == 'extend'
+          and unparse(x.func.value) == tasks and x.args and unparse(x.args[0]) == rl
+          for x in cfgm.node_exprs(n))]
+      ok = False
+      if ext and loops and heads:
+        after = [s for s, lab in loops[0].succ if lab == 'false']
+
+        def edge_ok(a, b, lab, rl=rl):
+          if lab in ('exc', 'close', 'brk'):
+            return False
+          if a.kind == 'cond' and lab == 'false' and unparse(a.ast) == rl:
+            return False
+          return True
+
+        ok = all(g.must_pass(s, heads, lambda n: n in ext, edge_ok) is None for s in after)
+      if ok:
+        ctx.ok(rule, fi, f'{tasks}.extend({rl}) before the next round', ext[0].ast)
+      else:
+        ctx.fail(rule, fi, f'{fi.qualname}: retried tasks re-enter the work list',
+                 'timed-out / orphaned tasks are collected for retry but not put'
+                 ' back on the work list before the next scheduling round: their'
+                 ' shards are never re-run', node=fi.node)
     pulls = [n for n in g.nodes if any(
         isinstance(x, ast.Call) and unparse(x.func) == 'next'
         and 'task_iterator' in unparse(x) for x in cfgm.node_exprs(n))]
-    if not pulls:
-      raise AnalysisError(f'{rule}: {fi.qualname} never pulls from task_iterator')
     guard = lambda c: c.kind == 'cond' and isinstance(c.ast, ast.BoolOp) and isinstance(
-        c.ast.op, ast.And) and any(unparse(v) == 'not tasks' for v in c.ast.values)
+        c.ast.op, ast.And) and any(unparse(v) == f'not {tasks}' for v in c.ast.values)
     for p in pulls:
       reach = g.reachable([g.entry], edge_ok=lambda a, b, lab: not (guard(a) and lab == 'true'))
       if p in reach:
-        ctx.fail(rule, fi, p.ast, 'a new task can be pulled from the iterator'
-                 ' while retried tasks are still waiting: retries can starve')
+        ctx.fail(rule, fi, f'{fi.qualname}: new task only when the work list is empty',
+                 'a new task can be pulled from the iterator while retried tasks'
+                 ' are still waiting: retries can starve', node=p.ast)
       else:
-        ctx.ok(rule, fi, f'{fi.qualname}: new task only when `tasks` is empty', p.ast)
-    pops = [n for n in g.nodes if 'tasks.pop()' in unparse(n.ast) if n.ast is not None]
+        ctx.ok(rule, fi, f'{fi.qualname}: new task only when `{tasks}` is empty', p.ast)
+    pops = [n for n in g.nodes if n.ast is not None and any(
+        isinstance(x, ast.Call) and isinstance(x.func, ast.Attribute) and x.func.attr == 'pop'
+        and unparse(x.func.value) == tasks for x in cfgm.node_exprs(n))]
     if not pops:
-      ctx.fail(rule, fi, f'{fi.qualname}: tasks.pop()', 'queued tasks are never'
+      ctx.fail(rule, fi, f'{fi.qualname}: work list is consumed', 'queued tasks are never'
                ' taken from the work list', node=fi.node)
   ctx.floor(rule, 3)
 
@@ -251,12 +281,26 @@ def r3(ctx: Ctx):
     else:
       ctx.ok(rule, fi, f'{p.text()} only under is_stop_iteration(elem)', p.ast)
   # exhausted = True on the same branch
-  ex = [n for n in g.nodes if isinstance(n.ast, ast.Assign) and unparse(n.ast) == 'exhausted = True']
+  # the loop-exit flag: `while not <flag>` around the batch loop
+  flag = None
+  for w_ in walk_no_nested(fi.node):
+    if isinstance(w_, ast.While) and isinstance(w_.test, ast.UnaryOp) and isinstance(
+        w_.test.operand, ast.Name):
+      flag = w_.test.operand.id
+  elemv = None
+  for l_ in walk_no_nested(fi.node):
+    if isinstance(l_, ast.For) and isinstance(l_.target, ast.Name) and any(
+        isinstance(c_, ast.Call) and 'is_stop_iteration' in unparse(c_.func)
+        and c_.args and unparse(c_.args[0]) == l_.target.id for c_ in ast.walk(l_)):
+      elemv = l_.target.id
+  if flag is None or elemv is None:
+    raise AnalysisError(f'{rule}: async_iterate: batch loop / exit flag not recognised')
+  ex = [n for n in g.nodes if isinstance(n.ast, ast.Assign) and unparse(n.ast) == f'{flag} = True']
   reach = g.reachable([g.entry], edge_ok=lambda a, b, lab: not (stop(a) and lab == 'true'))
   if ex and all(n not in reach for n in ex):
     ctx.ok(rule, fi, 'exhausted = True only on the end marker', ex[0].ast)
   else:
-    ctx.fail(rule, fi, 'async_iterate: exhausted = True under is_stop_iteration(elem)',
+    ctx.fail(rule, fi, 'async_iterate: exit flag set only under is_stop_iteration(element)',
              'exhaustion is not tied to the end marker: the client stops early'
              ' (lost batches) or never stops', node=fi.node)
   # other exceptions are raised
@@ -266,22 +310,22 @@ def r3(ctx: Ctx):
     for s, lab in c.succ:
       if lab == 'false':
         r = g.reachable([s], edge_ok=cfgm.only_normal, include_src=True)
-        if any(isinstance(n.ast, ast.Raise) and unparse(n.ast.exc) == 'elem' for n in r):
+        if any(isinstance(n.ast, ast.Raise) and unparse(n.ast.exc) == elemv for n in r):
           ok = True
   if ok:
     ctx.ok(rule, fi, 'non-stop exception elements are raised', fi.node)
   else:
-    ctx.fail(rule, fi, 'async_iterate: raise elem',
+    ctx.fail(rule, fi, 'async_iterate: other exception elements are raised',
              'a generator failure delivered by the worker is swallowed instead'
              ' of raised: the task looks finished and its results are missing',
              node=fi.node)
   # non-exception elements yielded
   ys = [n for n in g.nodes if isinstance(n.ast, ast.Expr) and isinstance(n.ast.value, ast.Yield)
-        and unparse(n.ast.value.value) == 'elem']
+        and unparse(n.ast.value.value) == elemv]
   if ys:
     ctx.ok(rule, fi, 'elements are yielded', ys[0].ast)
   else:
-    ctx.fail(rule, fi, 'async_iterate: yield elem', 'batches are not yielded', node=fi.node)
+    ctx.fail(rule, fi, 'async_iterate: elements are yielded', 'batches are not yielded', node=fi.node)
   ctx.floor(rule, 4)
 
 
